@@ -60,7 +60,8 @@ Record proto := {
      was found through the pthid: 0 = no, 1 = asked for after handling: the caller gets an error, the handling stays
      (issue-credential), 2 = asked for before handling: refused (present-proof) *)
   p_tid_check : N;
-  p_pr : N                               (* the problem-report message type *)
+  p_pr : N;                              (* the problem-report message type *)
+  p_stop_keeps_payload : bool            (* the Stop callback does not delete the stored payload (introduce) *)
 }.
 
 Definition pair_eqb (a b : st * st) : bool := N.eqb (fst a) (fst b) && N.eqb (snd a) (snd b).
@@ -130,19 +131,29 @@ Definition hit_range (f : option nat) (base len : nat) : bool :=
 
 (* a pending action event: e_src is the thread's state when the event was raised *)
 (* e_badtid: the message has no usable thread id of its own (no id; the instance was found through the pthid) *)
-Record ev := { e_t : thid; e_src : st; e_st : st; e_msg : N; e_v3 : bool; e_flag : bool; e_live : bool; e_badtid : bool }.
+(* e_live: the decision is still open;  e_clos: the callback (closure) of the event is still usable -- lost when the
+   service is restarted; the decision can then only be taken through the API by protocol instance id *)
+Record ev := { e_t : thid; e_src : st; e_st : st; e_msg : N; e_v3 : bool; e_flag : bool; e_live : bool; e_badtid : bool;
+               e_clos : bool }.
 
-Record sstate := { persisted : list (thid * st); pending : list ev }.
-Definition s0 : sstate := {| persisted := []; pending := [] |}.
+(* stored: the transitional payload kept per protocol instance for ActionContinue/ActionStop(piID): the index of the
+   event whose payload was written last (None: deleted by a decision on that instance) *)
+Record sstate := { persisted : list (thid * st); pending : list ev; stored : list (thid * option nat) }.
+Definition s0 : sstate := {| persisted := []; pending := []; stored := [] |}.
+
+Definition payload (s : sstate) (t : thid) : option nat :=
+  match find (fun x => N.eqb (fst x) t) (stored s) with Some x => snd x | None => None end.
 
 Definition cur (p : proto) (s : sstate) (t : thid) : st :=
   match find (fun x => N.eqb (fst x) t) (persisted s) with Some x => snd x | None => p_start p end.
 Definition set (s : sstate) (t : thid) (x : st) : sstate :=
-  {| persisted := (t, x) :: persisted s; pending := pending s |}.
+  {| persisted := (t, x) :: persisted s; pending := pending s; stored := stored s |}.
 Definition commit (s : sstate) (t : thid) (pers : option st) : sstate :=
   match pers with Some x => set s t x | None => s end.
 Definition add_ev (s : sstate) (e : ev) : sstate :=
-  {| persisted := persisted s; pending := pending s ++ [e] |}.
+  {| persisted := persisted s; pending := pending s ++ [e]; stored := stored s |}.
+Definition store_ev (s : sstate) (t : thid) (i : nat) : sstate :=
+  {| persisted := persisted s; pending := pending s; stored := (t, Some i) :: stored s |}.
 
 (* parameters of one execution context *)
 Record ctx := { c_v3 : bool; c_inbound : bool; c_opt : N; c_flag : bool; c_f : fault; c_badtid : bool; c_pr : bool }.
@@ -225,7 +236,12 @@ Inductive op :=
        (tape : list (option st))
 | Continue (e : nat) (opt : N) (f : fault) (tape : list (option st))
 | Stop (e : nat) (f : fault) (tape : list (option st))
-| Accept (e : nat) (tape : list (option st)).
+| Accept (e : nat) (tape : list (option st))
+(* ActionContinue / ActionStop by protocol instance id: works from the stored transitional payload *)
+| ContinueP (t : thid) (opt : N) (f : fault) (tape : list (option st))
+| StopP (t : thid) (f : fault) (tape : list (option st))
+(* the service is restarted: a new instance over the same stores; callbacks handed out before are gone *)
+| Restart.
 
 Inductive res := RReject | RAction | ROk | RErr | RNoEvent.
 
@@ -238,10 +254,20 @@ Definition res_eqb (a b : res) : bool :=
 Fixpoint kill (l : list ev) (n : nat) : list ev :=
   match l, n with
   | e :: r, O => {| e_t := e_t e; e_src := e_src e; e_st := e_st e; e_msg := e_msg e; e_v3 := e_v3 e;
-                    e_flag := e_flag e; e_live := false; e_badtid := e_badtid e |} :: r
+                    e_flag := e_flag e; e_live := false; e_badtid := e_badtid e; e_clos := e_clos e |} :: r
   | e :: r, S n' => e :: kill r n'
   | [], _ => []
   end.
+
+(* the decision on event i of instance t is taken: the event is closed, the stored payload of t is deleted *)
+Definition killed (s : sstate) (i : nat) (t : thid) : sstate :=
+  {| persisted := persisted s; pending := kill (pending s) i; stored := (t, None) :: stored s |}.
+
+Definition no_closures (s : sstate) : sstate :=
+  {| persisted := persisted s;
+     pending := map (fun e => {| e_t := e_t e; e_src := e_src e; e_st := e_st e; e_msg := e_msg e; e_v3 := e_v3 e;
+                                 e_flag := e_flag e; e_live := e_live e; e_badtid := e_badtid e; e_clos := false |}) (pending s);
+     stored := stored s |}.
 
 (* run handle for thread t from state c, commit what it persisted, raise the action event it halted for.
    `ab`: abandon afterwards when it failed (the listener).  Returns the state, the announced states and
@@ -252,7 +278,7 @@ Definition process (p : proto) (s : sstate) (t : thid) (k : ctx) (m : N) (c : st
   let s1 := commit s t (r_pers r1) in
   let s1' := match r_halt r1 with
              | Some n => add_ev s1 {| e_t := t; e_src := last (r_ann r1) c; e_st := n; e_msg := m; e_v3 := c_v3 k;
-                                      e_flag := c_flag k; e_live := true; e_badtid := false |}
+                                      e_flag := c_flag k; e_live := true; e_badtid := false; e_clos := true |}
              | None => s1
              end in
   if r_ok r1 then (s1', r_ann r1, true, false)
@@ -272,8 +298,9 @@ Definition msg_step (p : proto) (s : sstate) (outbound : bool) (m : N) (v3 flag 
           if negb (can p (cur p s t) x) then (s, (RReject, []), false)
           else if negb outbound && is_action p m v3 then
                  if f_tp f then (s, (RReject, []), false)
-                 else (add_ev s {| e_t := t; e_src := cur p s t; e_st := x; e_msg := m; e_v3 := v3; e_flag := flag;
-                                   e_live := true; e_badtid := bt |}, (RAction, []), false)
+                 else (store_ev (add_ev s {| e_t := t; e_src := cur p s t; e_st := x; e_msg := m; e_v3 := v3;
+                                             e_flag := flag; e_live := true; e_badtid := bt; e_clos := true |})
+                                 t (length (pending s)), (RAction, []), false)
                else
                  let k := {| c_v3 := v3; c_inbound := negb outbound; c_opt := 0; c_flag := flag; c_f := f; c_badtid := bt;
                              c_pr := N.eqb m (p_pr p) |} in
@@ -282,6 +309,19 @@ Definition msg_step (p : proto) (s : sstate) (outbound : bool) (m : N) (v3 flag 
                        then (if Nat.ltb (length (pending s)) (length (pending s1)) then RAction else ROk)
                        else RErr, ann), false)
       end.
+
+(* the application's decision on event i (record v): Continue with an option, or Stop *)
+Definition decide (p : proto) (s : sstate) (i : nat) (v : ev) (opt : N) (stop : bool) (f : fault)
+    (tape : list (option st)) : sstate * (res * list st) * bool :=
+  let skip := if stop then negb (memN (e_msg v) (p_stop_handles p))
+              else existsb (fun r => N.eqb (fst r) (e_msg v) && N.eqb (snd r) opt) (p_cont_stops p) in
+  let k := {| c_v3 := e_v3 v; c_inbound := true; c_opt := opt; c_flag := e_flag v; c_f := f; c_badtid := e_badtid v;
+              c_pr := N.eqb (e_msg v) (p_pr p) |} in
+  let '(s2, ann, _, fat) := process p (killed s i (e_t v)) (e_t v) k (e_msg v) (e_st v) skip true tape in
+  (s2, (ROk, ann), fat).
+
+Definition with_stored (s : sstate) (st : list (thid * option nat)) : sstate :=
+  {| persisted := persisted s; pending := pending s; stored := st |}.
 
 (* the handling succeeded but the caller is told an error *)
 Definition relabel (b : bool) (r : res) : res := if b then match r with ROk => RErr | _ => r end else r.
@@ -305,35 +345,45 @@ Definition step_full (p : proto) (s : sstate) (o : op) : sstate * (res * list st
       end
   | Continue e opt f tape =>
       match nth_error (pending s) e with
-      | Some v =>
-          if e_live v then
-            let s' := {| persisted := persisted s; pending := kill (pending s) e |} in
-            let skip := existsb (fun r => N.eqb (fst r) (e_msg v) && N.eqb (snd r) opt) (p_cont_stops p) in
-            let k := {| c_v3 := e_v3 v; c_inbound := true; c_opt := opt; c_flag := e_flag v; c_f := f; c_badtid := e_badtid v;
-                        c_pr := N.eqb (e_msg v) (p_pr p) |} in
-            let '(s2, ann, _, fat) := process p s' (e_t v) k (e_msg v) (e_st v) skip true tape in
-            (s2, (ROk, ann), fat)
-          else (s, (RNoEvent, []), false)
+      | Some v => if e_live v && e_clos v then decide p s e v opt false f tape else (s, (RNoEvent, []), false)
       | None => (s, (RNoEvent, []), false)
       end
   | Stop e f tape =>
       match nth_error (pending s) e with
       | Some v =>
-          if e_live v then
-            let s' := {| persisted := persisted s; pending := kill (pending s) e |} in
-            let skip := negb (memN (e_msg v) (p_stop_handles p)) in
-            let k := {| c_v3 := e_v3 v; c_inbound := true; c_opt := 0; c_flag := e_flag v; c_f := f; c_badtid := e_badtid v;
-                        c_pr := N.eqb (e_msg v) (p_pr p) |} in
-            let '(s2, ann, _, fat) := process p s' (e_t v) k (e_msg v) (e_st v) skip true tape in
-            (s2, (ROk, ann), fat)
+          if e_live v && e_clos v then
+            let '(s2, y, fat) := decide p s e v 0 true f tape in
+            ((if p_stop_keeps_payload p then with_stored s2 (stored s) else s2), y, fat)
           else (s, (RNoEvent, []), false)
       | None => (s, (RNoEvent, []), false)
       end
+  | ContinueP t opt f tape =>
+      match payload s t with
+      | Some e =>
+          match nth_error (pending s) e with
+          | Some v =>
+              if existsb (fun r => N.eqb (fst r) (e_msg v) && N.eqb (snd r) opt) (p_cont_stops p)
+              then (s, (RErr, []), false)                     (* the API refuses, nothing is touched *)
+              else decide p s e v opt false f tape
+          | None => (s, (RNoEvent, []), false)
+          end
+      | None => (s, (RNoEvent, []), false)
+      end
+  | StopP t f tape =>
+      match payload s t with
+      | Some e =>
+          match nth_error (pending s) e with
+          | Some v => decide p s e v 0 true f tape
+          | None => (s, (RNoEvent, []), false)
+          end
+      | None => (s, (RNoEvent, []), false)
+      end
+  | Restart => (no_closures s, (ROk, []), false)
   | Accept e tape =>
       match nth_error (pending s) e with
       | Some v =>
           if N.eqb (cur p s (e_t v)) (e_src v) then
-            let s' := {| persisted := persisted s; pending := kill (pending s) e |} in
+            let s' := killed s e (e_t v) in
             let k := {| c_v3 := e_v3 v; c_inbound := true; c_opt := 0; c_flag := e_flag v; c_f := nofault; c_badtid := e_badtid v;
                         c_pr := N.eqb (e_msg v) (p_pr p) |} in
             let '(s2, ann, ok, _) := process p s' (e_t v) k (e_msg v) (e_st v) false false tape in
@@ -353,7 +403,13 @@ Definition op_thread (p : proto) (s : sstate) (o : op) : option thid :=
   | Msg _ _ _ _ t _ _ => Some t
   | Wire outbound m v3 _ i th pth fresh _ _ => wire_thread p m v3 outbound i th pth fresh
   | Continue e _ _ _ | Stop e _ _ =>
-      match nth_error (pending s) e with Some v => if e_live v then Some (e_t v) else None | None => None end
+      match nth_error (pending s) e with Some v => if e_live v && e_clos v then Some (e_t v) else None | None => None end
+  | ContinueP t _ _ _ | StopP t _ _ =>
+      match payload s t with
+      | Some e => match nth_error (pending s) e with Some v => Some (e_t v) | None => None end
+      | None => None
+      end
+  | Restart => None
   | Accept e _ => match nth_error (pending s) e with Some v => Some (e_t v) | None => None end
   end.
 
@@ -381,6 +437,7 @@ Fixpoint live_others (l : list ev) (i : nat) (t : thid) : bool :=
   end.
 
 Definition is_reject (r : res) : bool := match r with RReject => true | _ => false end.
+Definition is_err (r : res) : bool := match r with RErr => true | _ => false end.
 
 Definition disciplined_step (p : proto) (s : sstate) (o : op) : bool :=
   match o with
@@ -393,6 +450,15 @@ Definition disciplined_step (p : proto) (s : sstate) (o : op) : bool :=
   | Accept e _ =>
       is_reject (fst (snd (step p s o))) ||
       match nth_error (pending s) e with Some v => negb (live_others (pending s) e (e_t v)) | None => true end
+  | ContinueP t _ _ _ | StopP t _ _ =>
+      (* a stored payload is only used while its decision is open *)
+      match payload s t with
+      | Some e => match nth_error (pending s) e with
+                  | Some v => is_err (fst (snd (step p s o))) || (e_live v && negb (step_fat p s o))
+                  | None => true
+                  end
+      | None => true
+      end
   | _ => negb (step_fat p s o)
   end.
 
@@ -426,5 +492,30 @@ Fixpoint all_steps_ok (p : proto) (s : sstate) (ops : list op) : bool :=
   | o :: r => step_ok p s o && all_steps_ok p (fst (step p s o)) r
   end.
 
+(* the same predicate with the edge relation as a parameter (instantiated with the PUBLISHED graph in Props.v) *)
+Fixpoint is_path_rel (R : st -> st -> bool) (l : list st) : bool :=
+  match l with
+  | a :: ((b :: _) as r) => R a b && is_path_rel R r
+  | _ => true
+  end.
+
+Definition step_ok_rel (R : st -> st -> bool) (p : proto) (s : sstate) (o : op) : bool :=
+  match op_thread p s o with
+  | None => true
+  | Some t =>
+      let '(s', (_, ann)) := step p s o in
+      is_path_rel R (cur p s t :: ann) && memN (cur p s' t) (cur p s t :: ann) &&
+      (negb (terminal p (cur p s t)) || match ann with [] => true | _ => false end)
+  end.
+
+Fixpoint all_steps_ok_rel (R : st -> st -> bool) (p : proto) (s : sstate) (ops : list op) : bool :=
+  match ops with
+  | [] => true
+  | o :: r => step_ok_rel R p s o && all_steps_ok_rel R p (fst (step p s o)) r
+  end.
+
 Definition op_fault (o : op) : fault :=
-  match o with Msg _ _ _ _ _ f _ | Wire _ _ _ _ _ _ _ _ f _ | Continue _ _ f _ | Stop _ f _ => f | Accept _ _ => nofault end.
+  match o with
+  | Msg _ _ _ _ _ f _ | Wire _ _ _ _ _ _ _ _ f _ | Continue _ _ f _ | Stop _ f _ | ContinueP _ _ f _ | StopP _ f _ => f
+  | Accept _ _ | Restart => nofault
+  end.
